@@ -91,7 +91,15 @@ def garbage_direction_last(act, x_scale):
     return (not np.isfinite(dn)) or dn > 1e6 * max(1.0, x_scale)
 
 
-def compare_restart(problem, cfg, blob, x_ref, maxiter, pseed, stats, n_pert=5, ref_act=None, rel_step_tol=None):
+def zero_evaluation_failure(searches):
+    """A line search that gave up before evaluating anything: its maximum feasible step was zero
+    (a variable on a bound whose direction component is a rounding-level non-zero pointing outward)
+    or the direction was not a descent direction. Whether that happens is decided by the last bit of
+    one component of d (DESIGN 7.4), so runs that differ only there are not comparable."""
+    return any(t[2] is None and t[0] == t[1] for t in searches)
+
+
+def compare_restart(problem, cfg, blob, x_ref, maxiter, pseed, stats, n_pert=5, ref_act=None, rel_step_tol=None, ref_searches_before=None):
     """DESIGN 7.2: is the restart as close to the reference as rounding allows?
 
     Returns (verdict, info): verdict in {"ok", "vacuous", "fail", "raised"}.
@@ -106,6 +114,12 @@ def compare_restart(problem, cfg, blob, x_ref, maxiter, pseed, stats, n_pert=5, 
     if garbage_direction(act, xs_scale) or (ref_act is not None and ref_act.ls_log and garbage_direction_last(ref_act, xs_scale)):
         stats["nj.garbage_direction"] += 1
         return "vacuous", {"reason": "search direction > 1e6 x iterate scale"}, act
+    ref_new = []
+    if ref_act is not None and ref_searches_before is not None:
+        ref_new = ref_act.ls_log[int(ref_searches_before):]
+    if zero_evaluation_failure(act.ls_log) != zero_evaluation_failure(ref_new) and ref_act is not None and ref_searches_before is not None:
+        stats["nj.zero_step_knife_edge"] += 1
+        return "vacuous", {"reason": "one of the two runs met a line search with a zero maximum step"}, act
     if x.shape != x_ref.shape:
         return "fail", {"shape": list(x.shape)}, act
     d = float(np.max(np.abs(x - x_ref))) if x.size else 0.0
